@@ -383,8 +383,8 @@ pub fn number_from_string(string: &str, rule: Rule) -> Result<Number> {
             }
         }
         Rule::byte => Number::Byte(
-            u8::from_str_radix(&as_str[2..], 2)
-                .expect("parser allowed a non-standard byte literal")
+            u8::from_str_radix(&as_str[2..].replace('_', ""), 2)
+                .map_err(|_| anyhow::anyhow!("a byte literal holds at most eight binary digits"))?
                 .to_string(),
         ),
         _ => bail!("non-number rule"),
